@@ -117,4 +117,20 @@ CLAIMS = {
         "leaves are not covered. Trusted: CrossHair/z3, the reference encodings (from the observation classes' docstrings).",
         "technique": TECH_S,
     },
+    "C08": {
+        "engine": "symex+py2smt",
+        "text": "T1: RouteTable.find_best_route translated from source to z3 (BV32 addresses and contiguous masks, FP64 "
+        "metrics, optional default route) and shown equal to the longest-prefix / lowest-metric / first-declared / "
+        "default-last oracle for every destination and every table of N routes. S: on generated topologies (switched "
+        "LAN + 1 or 2 routers with static and default routes, /24 and /30 links) the TTL of an echo request is a solver "
+        "integer (every receiving interface and routing hop lowers it, nothing is handed on with TTL < 1, large TTL is "
+        "delivered); ping between every ordered host pair under a solver-chosen toggle (interface down, node off, "
+        "ACL deny, switch off) agrees with an independent reachability model and is never handed to a third host's "
+        "software; an interface hands a frame to its node only if it is addressed to it.",
+        "note": "Bounds: N=3 (quick) / 4 (thorough) routes; non-contiguous masks excluded (stdlib raises); TTL -1..70; "
+        "3 hosts, 9 toggles, cold/warm ARP. Termination is argued from the TTL measure (strictly decreasing, checked), "
+        "not run. Wireless receive paths are not covered. Trusted: CrossHair/z3, the ipaddress BV model (validated "
+        "against the stdlib on a grid and on solver witnesses each run).",
+        "technique": "AST-to-SMT translation of route selection (z3 BV32+FP64) + symbolic execution of the real forwarding code (CrossHair+z3), counterexamples replayed",
+    },
 }
